@@ -244,6 +244,21 @@ def replay(path):
         print("REPLAY build failed\n" + err[-3000:])
         return 2
     arg = rp.get("replay_arg") or rec.get("replay")
+    if rec.get("kind") == "compile-probe":
+        import tempfile
+        src = rec.get("source") or ""
+        print("compile probe: %s  (expected: %s; observed when recorded: %s)" % (rec.get("statement"), rec.get("expected"), rec.get("observed", "")[:200]))
+        print("REPLAY: re-run `python3 verif.py check %s --tier quick` to re-evaluate compile probes (they are generated by probes.py)" % rp.get("property"))
+        return 0
+    if arg in (None, "", "compile", "fancy"):
+        # class-level finding without a single-configuration replay: re-run the recorded job and look for the same key
+        cmd = [binp] + [a for a in rp.get("args", []) if not a.startswith("--deadline")]
+        env = dict(os.environ)
+        env.update({"OPENBLAS_NUM_THREADS": "1", "OMPI_ALLOW_RUN_AS_ROOT": "1", "OMPI_ALLOW_RUN_AS_ROOT_CONFIRM": "1", "ASAN_OPTIONS": "detect_leaks=0:abort_on_error=1"})
+        r = subprocess.run(cmd, env=env, stdout=subprocess.PIPE, stderr=subprocess.PIPE, text=True, errors="replace")
+        hit = [l for l in r.stdout.splitlines() if l.startswith("V\t" + rp["key"] + "\t")]
+        print(("REPLAY VIOLATION (key reproduced): " + hit[0][:400]) if hit else "REPLAY OK (key not reproduced by re-running the job)")
+        return 1 if hit else 0
     if not arg:
         # crash records carry only a trace: harnesses accept it through --replay-trace
         arg = rec.get("trace", "")
